@@ -23,6 +23,9 @@ RULE = (
 RULE += (
     " Mode 'positions': variants of one titled object schema (plain, + trivial composition + default, + default, + description, + keyword) at 2-3 positions of one document; the element at each position must equal, and behave like, an independent parse of its own sub-schema."
 )
+RULE += (
+    ' Round 9: a directed family writes one numeric keyword (multipleOf, minimum, maximum, exclusive bounds) as int and as float and judges the two equal elements on numbers between 2**49 and 2**64 of both signs, written as int and as float.'
+)
 ASSUMPTIONS = [
     "alpha() inlines #/definitions refs and drops class-name-derived titles: equality ignores class names by design and a title is an annotation",
     "JSON comparison is type-faithful (true != 1, 1 == 1.0)",
@@ -32,7 +35,7 @@ BUDGET = {"quick": 600, "thorough": 6000}
 observe.register_formats()
 
 
-BIG_NUMBERS = [2 ** 53 + 1, 2 ** 53 + 2, 3 * 2 ** 60, 3 * 2 ** 60 + 1, 2 ** 64, 5 * 2 ** 55, 15 * 2 ** 52 + 1, 10 ** 18 + 3]
+BIG_NUMBERS = [2 ** 50 + 1, 2 ** 51 + 1, 3 * 2 ** 49 + 1, 2 ** 52 - 1, 2 ** 49 + 1, 7 * 2 ** 48 + 3, 2 ** 53 + 1, 2 ** 53 + 2, 3 * 2 ** 60, 3 * 2 ** 60 + 1, 2 ** 64, 5 * 2 ** 55, 15 * 2 ** 52 + 1, 10 ** 18 + 3]
 
 
 @st.composite
@@ -66,6 +69,19 @@ def cases(draw):
             flat = R.repair_refs(flat, R.index(child))
             values = draw(values_for(R.to_schema(child), 5, 8))
             return {"mode": "inherit", "a": child, "b": flat, "dropped": drop, "values": values}
+    if draw(st.integers(0, 11)) == 0:
+        # the same number written as an integer and as a float (2 == 2.0: the elements are equal), judged on numbers
+        # around and beyond the precision of a float, of both signs, written as int and as float
+        kind = draw(st.sampled_from(["Element", "Integer", "Number"]))
+        kw_name = draw(st.sampled_from(["multipleOf", "multipleOf", "minimum", "maximum", "exclusiveMinimum", "exclusiveMaximum"]))
+        m = draw(st.sampled_from([2, 3, 5, 7, 10, 2 ** 20, 2 ** 52, 2 ** 53])) if kw_name == "multipleOf" else \
+            draw(st.sampled_from([0, 1, -1, 2 ** 52, 2 ** 53, -(2 ** 53)]))
+        big = draw(st.lists(st.sampled_from(BIG_NUMBERS), min_size=3, max_size=8, unique=True))
+        values = big + [-v for v in big[:2]] + [float(v) for v in big[:2]] + [0, m, m + 1, 3 * m, -m, 1.5]
+        if kind == "Integer":
+            values = [v for v in values if not isinstance(v, float) or v == int(v)]
+        return {"mode": "mutant", "mutation": "lookalike-kw:" + kw_name, "values": values,
+                "a": {"id": 1, "kind": kind, "kw": {kw_name: m}}, "b": {"id": 1, "kind": kind, "kw": {kw_name: float(m)}}}
     if draw(st.integers(0, 6)) == 0:
         # a tree that uses ONE class twice vs the same tree whose second use is an equal class under another name:
         # the trees are equal, so they must mean - and serialise to - the same thing
